@@ -1,6 +1,7 @@
 import Model.Retry
 import Generated.ConstsC16
 import Driver.Common
+import Driver.SysProto
 /-! Driver for C16: one case per line in, one canonical line out (compared with harness/cmd/vh_c16).
 The answers are computed by the model's own definitions at the constants / tables extracted from the
 current source (`Generated/ConstsC16.lean`). -/
@@ -151,4 +152,4 @@ def step (line : String) : String :=
 
 end C16D
 
-def main : IO Unit := runLines C16D.step
+def main : IO Unit := runLines fun line => if line.startsWith "LIN " then SysProto.step line else C16D.step line
